@@ -115,7 +115,7 @@ Qed.
 Lemma pack_passes : forall o little c w signed, In (o, little) order_table -> In (c, (w, signed)) code_table ->
   forall (l : line) (v : Z),
   data_passes [(l, IPack (String.append o c) (FInt v))] =
-    if pack_fits w signed v then Done [(l, CBytes (pack_bytes little w v))] else Fail (PRaw StructError).
+    if pack_fits w signed v then Done [(l, CBytes (pack_bytes little w v))] else Fail (PAsm l).
 Proof.
   intros o little c w signed Ho Hc l v. unfold data_passes.
   cbn [resolve_strings map resolve_sequences rev app obind transform_shorthand resolve_packs].
@@ -152,7 +152,7 @@ Qed.
 (* ---- db / dh / dw / dd ------------------------------------------------------------------------------------- *)
 Lemma shorthand_passes : forall name w, In (name, w) shorthand_table -> forall (l : line) (v : Z),
   data_passes [(l, IShort name (FInt v))] =
-    if int_fits w v then Done [(l, CBytes (int_bytes w v))] else Fail (PRaw StructError).
+    if int_fits w v then Done [(l, CBytes (int_bytes w v))] else Fail (PAsm l).
 Proof.
   intros name w H l v. unfold data_passes.
   cbn in H. destruct H as [H|[H|[H|[H|[]]]]]; injection H as <- <-;
@@ -174,10 +174,10 @@ Proof.
 Qed.
 
 Lemma seq_bytes_doc : forall U Lw w, In (U, (w, false)) code_table -> In (Lw, (w, true)) code_table -> lower U = Lw ->
-  forall toks vs, parsed toks vs ->
-  seq_bytes U toks = if forallb (int_fits w) vs then Done (flat_map (int_bytes w) vs) else Fail (PRaw StructError).
+  forall (l : line) toks vs, parsed toks vs ->
+  seq_bytes l U toks = if forallb (int_fits w) vs then Done (flat_map (int_bytes w) vs) else Fail (PAsm l).
 Proof.
-  intros U Lw w HU HL E toks vs P. induction P as [|t v toks vs H _ IH]; [reflexivity|].
+  intros U Lw w HU HL E l toks vs P. induction P as [|t v toks vs H _ IH]; [reflexivity|].
   cbn [seq_bytes forallb flat_map]. rewrite H. rewrite (signed_choice U Lw w v HU HL E).
   destruct (int_fits w v); cbn [andb]; [|reflexivity].
   rewrite IH. destruct (forallb (int_fits w) vs); reflexivity.
@@ -185,22 +185,22 @@ Qed.
 
 Lemma seq_passes : forall name w, In (name, w) seq_table -> forall (l : line) toks vs, parsed toks vs ->
   data_passes [(l, ISeq name toks)] =
-    if forallb (int_fits w) vs then Done [(l, CBytes (flat_map (int_bytes w) vs))] else Fail (PRaw StructError).
+    if forallb (int_fits w) vs then Done [(l, CBytes (flat_map (int_bytes w) vs))] else Fail (PAsm l).
 Proof.
   intros name w H l toks vs P. unfold data_passes.
   pose proof (parsed_all_ints _ _ P) as A.
   cbn in H. destruct H as [H|[H|[H|[H|[H|[]]]]]]; injection H as <- <-;
     cbn [resolve_strings map resolve_sequences]; rewrite A;
     cbn [negb seq_fmt assoc_str String.eqb Ascii.eqb Bool.eqb].
-  - rewrite (seq_bytes_doc "B" "b" 1) with (vs := vs) by (cbn; tauto || assumption).
+  - rewrite (seq_bytes_doc "B" "b" 1) with (l := l) (vs := vs) by (cbn; tauto || assumption).
     destruct (forallb (int_fits 1) vs); reflexivity.
-  - rewrite (seq_bytes_doc "H" "h" 2) with (vs := vs) by (cbn; tauto || assumption).
+  - rewrite (seq_bytes_doc "H" "h" 2) with (l := l) (vs := vs) by (cbn; tauto || assumption).
     destruct (forallb (int_fits 2) vs); reflexivity.
-  - rewrite (seq_bytes_doc "I" "i" 4) with (vs := vs) by (cbn; tauto || assumption).
+  - rewrite (seq_bytes_doc "I" "i" 4) with (l := l) (vs := vs) by (cbn; tauto || assumption).
     destruct (forallb (int_fits 4) vs); reflexivity.
-  - rewrite (seq_bytes_doc "L" "l" 4) with (vs := vs) by (cbn; tauto || assumption).
+  - rewrite (seq_bytes_doc "L" "l" 4) with (l := l) (vs := vs) by (cbn; tauto || assumption).
     destruct (forallb (int_fits 4) vs); reflexivity.
-  - rewrite (seq_bytes_doc "Q" "q" 8) with (vs := vs) by (cbn; tauto || assumption).
+  - rewrite (seq_bytes_doc "Q" "q" 8) with (l := l) (vs := vs) by (cbn; tauto || assumption).
     destruct (forallb (int_fits 8) vs); reflexivity.
 Qed.
 
